@@ -37,13 +37,19 @@ def inConflict : Int := Gen.inConflictVersion
 def Entry.inConflict (e : Entry) : Bool := e.version = Nun.inConflict
 def Change.keepInConflict (c : Change) : Bool := c.version = Nun.inConflict
 
+/-- `i32::saturating_add(1)` on a version -/
+def vinc (v : Int) : Int := if v < 2147483647 then v + 1 else v
+
+/-- `i32::saturating_add(n)` for a non-negative `n` -/
+def vadd (v : Int) (n : Nat) : Int := if v + n < 2147483647 then v + n else max v 2147483647
+
 /-- `Change::next_version` -/
 def Change.nextVersion (c : Change) (old : Entry) : Int :=
   if c.keepInConflict then c.version
-  else if c.resolve then (if old.inConflict then c.version else old.version) + 1
+  else if c.resolve then vinc (if old.inConflict then c.version else old.version)
   else if old.inConflict then old.version
-  else if c.version = -1 then old.version + 1
-  else c.version + 1
+  else if c.version = -1 then vinc old.version
+  else vinc c.version
 
 /-- `Value::get_update_value_sate` -/
 def updState (s : Status) : Status := if s = .new then .new else .updated
@@ -99,7 +105,7 @@ def Db.setValue (db : Db) (c : Change) : Db × SetResp × List Push :=
       let db' := db.setValueVersion c.key c.value nv (updState old.state) old.vaddr old.kaddr c.opId
       (db', .set c.key c.value, db'.notify c.key c.value nv)
   | none =>
-    let nv := c.version + 1
+    let nv := vinc c.version
     let db' := db.setValueVersion c.key c.value nv .new 0 0 c.opId
     (db', .set c.key c.value, db'.notify c.key c.value nv)
 
@@ -120,7 +126,7 @@ def Db.listKeys (db : Db) (pattern : Bytes) (system : Bool) : List Bytes :=
   Bytes.sort <| (db.map.filter fun (k, e) =>
     (system || !Bytes.startsWith k Gen.securePrefix) && e.state != .deleted && patternMatch pattern k).map (·.1)
 
-inductive IncResp | ok | notNumeric | overflow
+inductive IncResp | ok | notNumeric | overflow | versionCap
 deriving DecidableEq, Repr
 
 /-- the text `inc_value` parses: a missing or removed key counts as `0` -/
@@ -132,17 +138,25 @@ def Db.incText (db : Db) (k : Bytes) : Bytes :=
 /-- the entry `inc_value` stores: version + 1 and the disk position of an existing entry -/
 def Db.incStore (db : Db) (k next : Bytes) (op : Nat) : Db :=
   match db.getValue k with
-  | some e => db.setValueVersion k next (e.version + 1) (updState e.state) e.vaddr e.kaddr op
+  | some e => db.setValueVersion k next (vinc e.version) (updState e.state) e.vaddr e.kaddr op
   | none => db.setValueVersion k next 1 .new 0 0 op
+
+/-- the key has an entry whose version is `i32::MAX` -/
+def Db.versionCapped (db : Db) (k : Bytes) : Bool :=
+  match db.getValue k with
+  | some e => e.version = 2147483647
+  | none => false
 
 /-- `Database::inc_value` -/
 def Db.incValue (db : Db) (k : Bytes) (inc : Int) (op : Nat) : Db × IncResp × List Push :=
   match Bytes.parseI32 (db.incText k) with
   | some cur =>
     if Bytes.fitsI32 (cur + inc) then
-      let next := Bytes.ofInt (cur + inc)
-      let db' := db.incStore k next op
-      (db', .ok, db'.notify k next (-1))
+      if db.versionCapped k then (db, .versionCap, [])
+      else
+        let next := Bytes.ofInt (cur + inc)
+        let db' := db.incStore k next op
+        (db', .ok, db'.notify k next (-1))
     else (db, .overflow, [])
   | none => (db, .notNumeric, [])
 
@@ -159,7 +173,7 @@ def Db.removeValue (db : Db) (k : Bytes) : Option (Db × List Push) :=
     let db' := match db.getValue k with
       | some e =>
         if e.state = .new then { db with map := AL.erase db.map k }
-        else db.setValueVersion k Gen.tombstoneValue (e.version + 1) .deleted e.vaddr e.kaddr e.opId
+        else db.setValueVersion k Gen.tombstoneValue (vinc e.version) .deleted e.vaddr e.kaddr e.opId
       | none => db
     some (db', db'.notifyRemoved k)
 
